@@ -318,10 +318,13 @@ class Compiler:
             "set_where": None
         }
 
-        code = self.compile_file(file, link_base["promise"], link_base)
-
-        if not link_base["promise"].settled:
-            link_base["promise"].settle(addr)
+        try:
+            code = self.compile_file(file, link_base["promise"], link_base)
+        finally:
+            # Also when an error cuts the included file short: symbols defined
+            # before that point refer to this promise and are resolved later
+            if not link_base["promise"].settled:
+                link_base["promise"].settle(addr)
 
         return code
 
